@@ -1222,6 +1222,12 @@ func main() {
 	// whole-function translations of the member parser and the hand-written encoder (imp.go)
 	guard(&fs, []string{"ParseSt", "psFail", "parseField", "parsePost", "parseJSONResets"}, func() { emitParseJSON(&fs, root, c, funcs) })
 	guard(&fs, []string{"toJSON"}, func() { emitToJSON(&fs, root, c, funcs) })
+	// jhttp/getter.go: the value typing of ParseQuery (getter.go in this directory)
+	guard(&fs, []string{"isDecimalStep", "isDecimal"}, func() { emitByteLoop(&fs, jhttp, c, funcs, "isDecimal", "isDecimal") })
+	guard(&fs, []string{"parseNumber"}, func() { emitParseNumber(&fs, jhttp, c, funcs) })
+	guard(&fs, []string{"jsonStringQuoted", "jsonStringHalf"}, func() { emitQuoteConds(&fs, jhttp, c, funcs, "parseJSONString", "jsonString") })
+	guard(&fs, []string{"quoted64Quoted", "quoted64Half"}, func() { emitQuoteConds(&fs, jhttp, c, funcs, "parseQuoted64", "quoted64") })
+	guard(&fs, []string{"queryCascade"}, func() { emitQueryCascade(&fs, jhttp) })
 	fs.WriteString("end Jrpc.Gen.Funcs\n")
 	write(*out, "Funcs.lean", fs.String())
 
